@@ -51,6 +51,9 @@ def _lengths(rng):
         if n >= 2:
             out.append((b"\xfe\xf0" + body[2:]).hex())
         out.append((b"\xfe\xf0" + bytes(n - 2)).hex() if n >= 2 else "fe")
+        if n >= 4:      # a header that is consistent with the datagram's own length is still not a broadcast unless the length is one of the three
+            out.append((b"\xfe\xf0" + n.to_bytes(2, "little") + body[4:]).hex())
+            out.append((b"\xfe\xf0" + n.to_bytes(2, "little") + bytes(n - 4)).hex())
     for n in (159, 165, 168):
         for first in (b"\xfe\xf1", b"\xff\xf0", b"\xf0\xfe", b"\xfe\x0f", b"\x00\x00"):
             out.append((first + rng.randbytes(n - 2)).hex())
